@@ -177,7 +177,7 @@ finally:
 '''
 
 
-@harness(['C07'], 'supp.project.Project.norm_package', twins=('spec-level-counts-from-zero',))
+@harness(['C07', 'C04', 'C09'], 'supp.project.Project.norm_package', twins=('spec-level-counts-from-zero',))
 def norm_package(run, twin=None):
     """absolute names are returned unchanged; a relative name with k leading dots resolves, as importlib.util.resolve_name does with the
     file's __package__, to the package k-1 levels above the file's package (plus the rest of the name), and raises ImportError exactly
